@@ -153,6 +153,18 @@ type TraitDesc struct {
 	Traits   TraitInstances
 }
 
+// InstanceOf returns the trait instance written on the definition line of v, or nil
+// when that line carries no instance of this trait (e.g. a duplicate that is not the primary definition).
+// exposed for use in templates.
+func (td TraitDesc) InstanceOf(v Value) *TraitInstance {
+	for i := range td.Traits {
+		if td.Traits[i].OwningValue.Name == v.Name {
+			return &td.Traits[i]
+		}
+	}
+	return nil
+}
+
 func (td *TraitDesc) extractUnderlying() (underlying, bool) {
 	v, ok := td.Type.Underlying().(*types.Basic)
 	if !ok {
